@@ -30,7 +30,7 @@ SPEC = core.SPEC / "nmtran"
 
 STATEMENT_ACTIONS = ["DoAssign", "DoLogicalIfTaken", "DoLogicalIfSkipped", "DoBlockIf", "DoBlockElseIf",
                      "DoBlockElse", "DoBlockNone", "DoAdvan", "DoFinish"]
-ALL_KINDS = {"asg", "lif_taken", "lif_skipped", "blk_if", "blk_elseif", "blk_else", "blk_none", "advan",
+ALL_KINDS = {"asg", "lif_taken", "lif_skipped", "blk_if", "blk_elseif", "blk_else", "blk_none", "advan", "des",
              "num", "var", "neg", "add", "sub", "mul", "div", "pow",
              "EXP", "LOG", "SQRT", "ABS", "INT", "MOD", "PEXP", "PLOG", "PSQRT",
              "EQ", "NE", "LT", "LE", "GT", "GE", "and", "or", "not"}
@@ -42,8 +42,8 @@ REFUSALS = ("UnexpectedToken", "UnexpectedCharacters", "UnexpectedInput", "Unexp
             "ValueError", "NotImplementedError", "ZeroDivisionError", "ParseError", "VisitError")
 
 TIERS = {
-    "quick": dict(n_pred=1800, n_advan=330, n_param=400, chunk=4000),
-    "thorough": dict(n_pred=40000, n_advan=None, n_param=4000, chunk=8000),
+    "quick": dict(n_pred=1800, n_advan=330, n_general=160, n_param=400, chunk=4000),
+    "thorough": dict(n_pred=40000, n_advan=None, n_general=2000, n_param=4000, chunk=8000),
 }
 
 
@@ -52,7 +52,7 @@ TIERS = {
 
 def _strip(case):
     """What goes into TLC's case file (generator bookkeeping is not part of the spec's interface)."""
-    keep = ("id", "kind", "prog", "err", "advan", "trans", "amt", "obscmt", "dosecmt", "ratemode", "envs")
+    keep = ("id", "kind", "prog", "err", "des", "comps", "advan", "trans", "amt", "obscmt", "dosecmt", "ratemode", "envs")
     return {k: case[k] for k in keep if k in case}
 
 
@@ -300,7 +300,12 @@ def exec_ir(model, env, amounts=None):
                             kind, par = "duration", ev(dz.duration)
                     doses.append((kind, par))
                 per[num.get(c.name)] = {"lag": ev(c.lag_time), "bio": ev(c.bioavailability), "doses": doses}
-            ode = {"ncomp": len(comps), "flows": flows, "comps": per}
+            dadt = {}
+            for eq in s.eqs:
+                q = _sp(eq)
+                k = num.get(str(q.lhs.args[0].func)[2:])
+                dadt[k] = ev(q.rhs)
+            ode = {"ncomp": len(comps), "flows": flows, "comps": per, "dadt": dadt}
     return vals, set(vals), ode, why
 
 
@@ -438,6 +443,8 @@ def _base_record(case, text, recs):
     if case["kind"] == "advan":
         for k in ("advan", "trans", "scale", "ratemode", "cmtmode", "alag", "bio"):
             rec[k] = case[k]
+        if case.get("comps"):
+            rec["model_record"] = " ".join(c["name"] + "".join("/" + o for o in ("defdose", "defobs", "nodose") if c[o]) for c in case["comps"])
     return rec
 
 
@@ -551,6 +558,19 @@ def compare_ode(case, adv, ode, model):
     if ode["ncomp"] != adv["ncomp"]:
         out.append(("compartments", f"{ode['ncomp']} compartments, PREDPP defines {adv['ncomp']}"))
     want = {(r[0], r[1]): r[2] for r in adv["rates"]}
+    dadt = adv.get("dadt") or []
+    for n, p in enumerate(dadt, start=1):      # $DES: the right-hand sides at the probe amounts
+        if p[1] == 0 or n not in ode["dadt"]:
+            continue
+        val, why = ode["dadt"][n]
+        if val is None:
+            if why and why.startswith("free symbol"):
+                out.append(("free_symbol", f"dA({n})/dt refers to {why[12:]} which nothing in the model defines"))
+            continue
+        if val != Q(_frac(p)) and abs(float(val) - float(_frac(p))) > 1e-9 * max(1.0, abs(float(val))):
+            out.append(("dadt", f"dA({n})/dt = {val!r} in the model that was read, $DES gives {_frac(p)}"))
+    if dadt:
+        want = {}
     for key, p in sorted(want.items()):
         if p[1] == 0:
             continue  # undefined / overflow at this probe on the spec side
@@ -564,7 +584,7 @@ def compare_ode(case, adv, ode, model):
             continue
         if val != Q(_frac(p)) and abs(float(val) - float(_frac(p))) > 1e-9 * max(1.0, abs(float(val))):
             out.append(("rate_value", f"rate {key[0]}->{key[1]} = {val!r}, NONMEM defines {_frac(p)}"))
-    for key in sorted(set(ode["flows"]) - set(want)):
+    for key in sorted(set(ode["flows"]) - set(want)) if not dadt else []:
         out.append(("flow_extra", f"flow {key[0]}->{key[1]} does not exist in this ADVAN"))
     for n in range(1, adv["ncomp"] + 1):
         c = ode["comps"].get(n)
@@ -756,6 +776,7 @@ def main(tier: str, seed: int) -> int:
     t0 = time.time()
     pred = G.pred_cases(rng, cfg["n_pred"], 1)
     adv = G.advan_cases(rng, len(pred) + 1, cfg["n_advan"])
+    adv += G.general_cases(rng, len(pred) + len(adv) + 1, cfg["n_general"])   # $MODEL + Kij names / $DES
     par = G.param_cases(rng, cfg["n_param"], 1)
     progs = pred + adv
     nsys = len(G.systematic_programs())
